@@ -87,6 +87,19 @@ def run(ctx: Ctx):
             continue
         g = r["grid"]
         sel, ex = o["selected"], o["exported"]
+        # every grid point must have been scored with exactly its own hyper-parameters (an estimator constructed with them)
+        for cnd in o.get("candidates", []):
+            gs, ins = cnd["grid_score"], cnd["independent_score"]
+            if isinstance(ins, str) or abs(gs - ins) > 1e-6 * max(1.0, abs(ins)):
+                ctx.violation(f"grid point innovation_filtering={cnd['innovation_filtering']!r}, max_dt_sec={cnd['max_dt_sec']!r} was scored {gs!r} by the search, "
+                              f"an estimator constructed with exactly these hyper-parameters scores {ins!r}: the candidate did not carry its grid values",
+                              {"run": r, "observed": o}, key="grid-candidate-mis-scored")
+                break
+        bp = o.get("best_params")
+        if bp is not None:
+            for fld in ("innovation_filtering", "max_dt_sec"):
+                if ex[fld] != bp[fld]:
+                    ctx.violation(f"exported filter carries {fld} = {ex[fld]!r}, the search selected {bp[fld]!r}", {"run": r, "observed": o}, key="export-differs-from-best-params")
         # hyper-parameters = the supported Config fields; noise magnitudes are re-tuned by fitting (C17) and are not grid members
         for fld, lst in (("innovation_filtering", g["innovation_filtering"]), ("max_dt_sec", g["max_dt_sec"]), ("process_noise", None), ("sensor_noise", None)):
             if lst is not None and sel[fld] not in lst:
